@@ -46,6 +46,26 @@ CHECKS = {
              "architectures; the trace specification re-derives which evaluated rules are partners and checks each law "
              "on the verdicts the real code returned.",
         design_ref="6 (C12)"),
+    "C13": dict(
+        technique="TLA+ builder automata (Builders.tla) explored by TLC with a history variable; every emitted call "
+                  "history replayed on fresh real objects and validated call by call against the automata with TLC",
+        text="Rule, LayerRule and DiagramRule are automata with one action per fluent call; TLC enumerates every call "
+             "history up to a bound (plus tlc -simulate behaviours of length 7 and every deletion / duplication / "
+             "transposition of every complete chain), each is replayed on the real classes and closed with "
+             "assert_applies on four architectures; the trace specification requires an error wherever the automaton "
+             "classifies the state incomplete or contradictory and at every rejected call. Misspelt / too-deep names on "
+             "random architectures and all 64 entry-point option combinations are validated the same way.",
+        design_ref="6 (C13)"),
+    "C16": dict(
+        technique="TLA+ builder automata (Builders!ArchStep, LRuleStep) model-checked with TLC (well-formedness "
+                  "invariants) and every emitted call history replayed on the real builders, observed definition "
+                  "compared after each call by the trace specification",
+        text="TLC checks on all call histories up to the bound that the LayeredArchitecture automaton only reaches "
+             "well-formed definitions that list exactly what accepted calls supplied; every history (string and list "
+             "forms, duplicates forced by two layer names and two module names) is replayed on real objects, each "
+             "call's accept/reject outcome and the definition shown by architecture[layer] / str() are validated step "
+             "by step; LayerRule histories likewise (architecture first, exactly one subject layer).",
+        design_ref="6 (C16)"),
 }
 
 PENDING = {}
